@@ -377,6 +377,11 @@ theorem inv_step {Tok : Type} [DecidableEq Tok] (C : Crypto Tok) (n : Node) (op 
     split
     · exact h
     · exact ⟨⟨h.tok.lt, h.tok.le, h.tok.shape⟩, h.wf⟩
+  | ping nid =>
+    simp only [Node.step, Node.pingReq]
+    split
+    · exact h
+    · exact ⟨⟨h.tok.lt, h.tok.le, h.tok.shape⟩, h.wf⟩
 
 theorem inv_run {Tok : Type} [DecidableEq Tok] (C : Crypto Tok) (ops : List (Op Tok)) (n : Node) (h : Inv n) :
     Inv (n.run C ops) := by
@@ -663,6 +668,9 @@ theorem secInv_step {Tok : Type} [DecidableEq Tok] (C : Crypto Tok) (n : Node) (
   | storePeer w tok t =>
     simp only [Node.step, Node.storePeerReq]
     split <;> exact h
+  | ping nid =>
+    simp only [Node.step, Node.pingReq]
+    split <;> exact h
 
 theorem secInv_run {Tok : Type} [DecidableEq Tok] (C : Crypto Tok) (ops : List (Op Tok)) (n : Node) (h : SecInv n) :
     SecInv (n.run C ops) := by
@@ -674,5 +682,11 @@ theorem secInv_init (t0 : Nat) : SecInv (Node.init t0) := by
   intro sb hsb
   simp only [Node.init, List.mem_singleton] at hsb ⊢
   subst hsb; simp
+
+theorem pickBy_some_of_mem (better : Nat → Nat → Bool) (l : List (Nat × Nat)) (x : Nat × Nat) (hx : x ∈ l) :
+    ∃ e, pickBy better l = some e := by
+  cases l with
+  | nil => simp at hx
+  | cons a t => exact ⟨_, rfl⟩
 
 end Ipv8.C15
